@@ -139,6 +139,12 @@ class Model:
         self.use(i)
         return self._add(i, self.members[i].family, items, contents_of_new or {})
 
+    def unrelated(self, i, items, contents_of_new=None):
+        """A method of member i returned a list holding none of i's item objects (observed): a use of i, and a new
+        root in i's family (no isolation is claimed: the new items may share nested values with i's)."""
+        self.use(i)
+        return self._add(-1, self.members[i].family, items, contents_of_new or {})
+
     def edit(self, i, items, contents_of_new=None, op=None, right=None):
         self.use(i)
         new = self._add(i, self.members[i].family, items, contents_of_new or {})
